@@ -19,6 +19,7 @@ import (
 	"os"
 	"runtime/debug"
 	"sort"
+	"strconv"
 	"strings"
 
 	"grol.io/grol/ast"
@@ -772,6 +773,10 @@ var corpus = []string{
 	`m={9223372036854775808.0:"big", 1:"one", 9223372036854775807:"max"}; for kv=m{print(kv.value,"")}; first(m).value`,
 	`[(-9223372036854775807-1) >= -9223372036854775808.0, (-9223372036854775807-1) > -9223372036854775808.0, -9223372036854777856.0 < (-9223372036854775807-1), 9223372036854774784.0 < 9223372036854775807, 9223372036854777856.0 > 9223372036854775807]`,
 	`[9007199254740993 > 9007199254740992.0, 9007199254740993 == 9007199254740992.0, 9007199254740993 < 9007199254740994.0, [9007199254740993] <= [9007199254740992.0], -9007199254740993 < -9007199254740992.0]`,
+	`f=func(a){a[0]/2}; x=[3,1,1,1,1,1,1,1,1,1]; y=[3.0,1,1,1,1,1,1,1,1,1]; println(x==y, f(x), f(y), f(x))`,
+	`f=func(m){[m[0]/2, m[0]==3]}; x={0:3,1:1,2:2,3:3,4:4}; y={0:3.0,1:1,2:2,3:3,4:4}; println(f(x), f(y))`,
+	`s = "a\xc2\xa0b"; println(len(s), [s], {"k\xe2\x80\x8bz": s}); println(["plain", "caf\xc3\xa9", "x\x7fy", "q\"t", "soft\xc2\xadhyphen"])`,
+	`println(["\xc2\x85", "\xe2\x80\xa8\xe2\x80\xa9", "\xef\xbb\xbf", "\xee\x80\x80", "\xf3\xb0\x80\x80", "\xef\xbf\xbd", "\xf0\x9f\x98\x80", "\xe6\x97\xa5\xd0\x96"])`,
 	`id = x => x; f = func(n) { n + id(n = 5) }; println(f(1))`,
 	`id = x => x; g = func(n) { r = 0; for i = n { r = r + (i * id(i = i + 1)) }; r }; println(g(4))`,
 	`id = x => x; h = func(a, b) { [a - id(a = b), a] }; println(h(10, 3))`,
@@ -952,6 +957,30 @@ func (r *runner) wrapOracle(g *gen) {
 	}
 }
 
+// The reference's frozen unicode.IsPrint table (coq/model/RefValues.v rune_printable), restated here and compared with
+// the Go library the implementation is built with: a difference means the reference's table is out of date.
+func checkUnicodeTable(c *Ctx) {
+	type rg struct {
+		lo, hi rune
+		p      bool
+	}
+	table := []rg{{128, 159, false}, {160, 160, false}, {173, 173, false}, {161, 172, true}, {174, 383, true}, {1040, 1103, true},
+		{8203, 8207, false}, {8232, 8238, false}, {8288, 8292, false}, {8364, 8364, true}, {8211, 8212, true}, {12353, 12435, true},
+		{19968, 40869, true}, {57344, 63743, false}, {65279, 65279, false}, {65533, 65533, true}, {128512, 128591, true}, {983040, 1048573, false}}
+	bad := 0
+	for _, t := range table {
+		for r := t.lo; r <= t.hi; r++ {
+			if strconv.IsPrint(r) != t.p {
+				bad++
+				if bad <= 3 {
+					c.Fail("reference-unicode-table-differs-from-go-library", fmt.Sprintf("U+%04X", r), fmt.Sprintf("table says printable=%v, strconv.IsPrint says %v", t.p, !t.p))
+				}
+			}
+		}
+	}
+	c.Extra["unicode_table_code_points_checked"] = 128 + 1 + 1 + 12 + 210 + 64 + 5 + 7 + 5 + 1 + 2 + 83 + 20902 + 6400 + 1 + 1 + 80 + 65534
+}
+
 // ---------------------------------------------------------------------------------------------------
 func runC01(c *Ctx) {
 	c.Rule = "programs from a typed grammar of the core language (about 85% well typed, the rest ill typed at one node), parsed by the real parser; " +
@@ -976,6 +1005,7 @@ func runC01(c *Ctx) {
 		}
 		return
 	}
+	checkUnicodeTable(c)
 	for _, src := range corpus {
 		r.one(src, "corpus", map[string]bool{"corpus": true, "a": true, "b": true})
 	}
@@ -1029,9 +1059,9 @@ func runC01(c *Ctx) {
 		r.one(src, "factory", g.feats)
 	}
 	// int/float comparisons at the edges of int64 and of the 53-bit mantissa; variadic calls with nested last arguments
-	nedge := 3000
+	nedge := 3600
 	if c.Thorough() {
-		nedge = 24000
+		nedge = 30000
 	}
 	for i := 0; i < nedge; i++ {
 		g := newGen(c.R, false)
